@@ -408,7 +408,7 @@ def gen_content(rng, kind):
     return rng.choice([b"", b"\x00", b"\x00\x01\xff\xfe", b"\xff" * 5, bytes(range(256)), b"text-like\n", b"\r\n\x00\r"])
 
 
-def gen_run_scenario(rng, quick):
+def gen_run_scenario(rng, quick, _depth=0):
     ncmd = rng.range(1, 4)
     fail_at = rng.choice([None, None] + list(range(ncmd)))
     names = list(NAMES)
@@ -482,10 +482,26 @@ def gen_run_scenario(rng, quick):
         ret = [] if rstyle == "empty" else None
     if probe and ret is not None and "env.txt" not in [norm(f) for f in ret]:
         ret.append("env.txt")
+    attempts = []
+    if _depth == 0 and rng.chance(1, 3):
+        # the same input is executed again (1..2 more times) into the same output directory; what the programs do changes
+        for _ in range(rng.range(1, 2)):
+            for _try in range(20):
+                other = gen_run_scenario(rng, quick, _depth=1)
+                if len(other["cmds"]) >= ncmd:
+                    break
+            else:
+                continue
+            v = [dict(other["cmds"][i], name=cmds[i]["name"]) for i in range(ncmd)]
+            if rng.chance(1, 3):      # ... or exactly the same again
+                v = [dict(c) for c in cmds]
+            elif rng.chance(1, 2):    # ... or everything succeeds this time
+                v = [dict(c, code=0) for c in v]
+            attempts.append(v)
     return {"section": "run", "jid": rng.choice(["job", "mol_1", "x"]), "files": infiles, "envars": envars, "base": base,
             "cmds": cmds, "ret": ret, "scratch_entries": rng.choice([[], ["keep.txt"], ["keep.txt", "other_dir"]]),
             "paths": {"inp": rng.choice(["abs", "rel"]), "out": rng.choice(["abs", "rel"]), "scr": rng.choice(["abs", "rel"]),
-                      "cwd": rng.choice(["base", "sub", "elsewhere"])}}
+                      "cwd": rng.choice(["base", "sub", "elsewhere"])}, **({"attempts": attempts} if attempts else {})}
 
 
 def shell() -> str:
@@ -496,31 +512,46 @@ def shell() -> str:
     return SH
 
 
+def command_body(c) -> str:
+    parts = []
+    if c["out"]:
+        parts.append(octal(c["out"].encode()))
+    if c["err"]:
+        parts.append(octal(c["err"].encode()) + " >&2")
+    for e in c["effects"]:
+        tgt = e[2] if e[0] in ("c", "e") else e[1]
+        mk = f"mkdir -p {shlex.quote(os.path.dirname(tgt))}; " if "/" in tgt and e[0] != "r" else ""
+        if e[0] == "w":
+            parts.append(f"{mk}{octal(bytes.fromhex(e[2]))} > {shlex.quote(e[1])}")
+        elif e[0] == "c":
+            parts.append(f"if [ -f {shlex.quote(e[1])} ]; then {mk}cat {shlex.quote(e[1])} > {shlex.quote(e[2])}; fi")
+        elif e[0] == "r":
+            parts.append(f"rm -f {shlex.quote(e[1])}")
+        else:
+            parts.append(f"{mk}printf '%s' \"${e[1]}\" > {shlex.quote(e[2])}")
+    if c["code"] < 0:
+        parts.append(f"ulimit -c 0; kill -{-c['code']} $$; sleep 5")     # the shell kills itself
+    parts.append(f"exit {c['code'] if c['code'] >= 0 else 0}")
+    return "; ".join(parts)
+
+
 def build_job(scen, trace: Path):
+    """the JobInput of a scenario.  When the scenario has further `attempts` (the same input executed again into the same output
+    directory while the programs behave differently), every command looks up the number of the current execution in a file
+    next to the trace and behaves as scripted for that execution — the input itself is the same for all of them."""
     from molli.pipeline.job import JobInput
 
+    variants = [scen["cmds"]] + list(scen.get("attempts") or [])
     commands = []
     for i, c in enumerate(scen["cmds"]):
-        parts = [f"echo {i} >> {shlex.quote(str(trace))}"]
-        if c["out"]:
-            parts.append(octal(c["out"].encode()))
-        if c["err"]:
-            parts.append(octal(c["err"].encode()) + " >&2")
-        for e in c["effects"]:
-            tgt = e[2] if e[0] in ("c", "e") else e[1]
-            mk = f"mkdir -p {shlex.quote(os.path.dirname(tgt))}; " if "/" in tgt and e[0] != "r" else ""
-            if e[0] == "w":
-                parts.append(f"{mk}{octal(bytes.fromhex(e[2]))} > {shlex.quote(e[1])}")
-            elif e[0] == "c":
-                parts.append(f"if [ -f {shlex.quote(e[1])} ]; then {mk}cat {shlex.quote(e[1])} > {shlex.quote(e[2])}; fi")
-            elif e[0] == "r":
-                parts.append(f"rm -f {shlex.quote(e[1])}")
-            else:
-                parts.append(f"{mk}printf '%s' \"${e[1]}\" > {shlex.quote(e[2])}")
-        if c["code"] < 0:
-            parts.append(f"ulimit -c 0; kill -{-c['code']} $$; sleep 5")     # the shell kills itself
-        parts.append(f"exit {c['code'] if c['code'] >= 0 else 0}")
-        commands.append((shlex.join([shell(), "-c", "; ".join(parts)]), c["name"]))
+        head = f"echo {i} >> {shlex.quote(str(trace))}"
+        if len(variants) == 1:
+            script = head + "; " + command_body(c)
+        else:
+            att = shlex.quote(str(trace.with_name("attempt")))
+            cases = " ".join(f"{k + 1}) {command_body(v[i])};;" for k, v in enumerate(variants))
+            script = f"{head}; n=$(cat {att}); case $n in {cases} esac; exit 98"
+        commands.append((shlex.join([shell(), "-c", script]), c["name"]))
     files = {fn: (f["data"] if f["kind"] == "text" else bytes.fromhex(f["data"])) for fn, f in scen["files"].items()}
     kw = {}
     if scen["ret"] is not None:
@@ -573,20 +604,25 @@ def run_entry_point(argv, cwd: Path, env: dict, timeout: float):
     return r.returncode
 
 
-def observe_run(ctx, scen, idx, via_entry=False):
+def observe_run(ctx, scen, idx, via_entry=False, attempt=0):
+    """one execution of the scenario's input; `attempt` > 0: the same input file is executed AGAIN into the same output directory"""
     from molli.pipeline.job import JobOutput
 
     base = ctx.scratch / f"run{idx}{'e' if via_entry else ''}"
-    base.mkdir()
     trace = base / "trace"
+    scr = base / "scr"
     inp = build_job(scen, trace)
     want_hash = inp.hash
-    inp.dump(base / "job.inp")
-    scr = base / "scr"
-    if scen["scratch_entries"]:
-        scr.mkdir()
-        for e in scen["scratch_entries"]:
-            (scr / e).mkdir() if e.endswith("_dir") else (scr / e).write_text("keep")
+    if attempt == 0:
+        base.mkdir()
+        inp.dump(base / "job.inp")
+        if scen["scratch_entries"]:
+            scr.mkdir()
+            for e in scen["scratch_entries"]:
+                (scr / e).mkdir() if e.endswith("_dir") else (scr / e).write_text("keep")
+    (base / "attempt").write_text(str(attempt + 1))
+    if trace.exists():
+        trace.unlink()
     before = sorted(os.listdir(scr)) if scr.exists() else []
     # every path-valued argument absolute or relative, from the job's directory, a sub-directory of it or an unrelated one
     ps = scen.get("paths") or {}
@@ -605,7 +641,7 @@ def observe_run(ctx, scen, idx, via_entry=False):
     obs["trace"] = [int(x) for x in trace.read_text().split()] if trace.exists() else []
     obs["scratch_before"] = before
     obs["scratch_after"] = sorted(os.listdir(scr)) if scr.exists() else None
-    obs["cwd_leftovers"] = sorted(p.name for p in base.iterdir() if p.name not in ("trace", "job.inp", "scr", "out", "sub")) + \
+    obs["cwd_leftovers"] = sorted(p.name for p in base.iterdir() if p.name not in ("trace", "attempt", "job.inp", "scr", "out", "sub")) + \
         obs.get("launch_dir_leftovers", [])
     outp = base / "out" / "job.out"
     if outp.exists():
@@ -653,6 +689,10 @@ def simulate(scen):
 
 
 def clean_scenario(scen) -> bool:
+    return all(_clean_one({**scen, "cmds": v}) for v in [scen["cmds"]] + list(scen.get("attempts") or []))
+
+
+def _clean_one(scen) -> bool:
     """the hypothesis `Clean` of the theorems: capture files distinct and never a target of an effect; the output of a
     running command is not read by its own effects"""
     caps = []
@@ -773,6 +813,15 @@ def check_running(ctx, n_cases, n_entry, corpus):
             ctx.count("run-env-override-of-a-preset-variable")
         oracle_run(ctx, s, obs, s)
         reqs.append((run_line(s), obs_line(obs), s))
+        for k, variant in enumerate(s.get("attempts") or []):
+            # executed again into the same output directory: the commands must run and the report must be about THIS execution
+            sk = {**{x: y for x, y in s.items() if x != "attempts"}, "cmds": variant}
+            obs_k = observe_run(ctx, s, idx, attempt=k + 1)
+            prev_failed = any(c["code"] != 0 for c in (s["cmds"] if k == 0 else s["attempts"][k - 1]))
+            ctx.count("run-executed-again-after:" + ("a-failing-execution" if prev_failed else "a-successful-or-incomplete-execution"))
+            ctx.case(json.dumps(sk, sort_keys=True) + f":again{k + 1}", nontrivial=True)
+            oracle_run(ctx, sk, obs_k, {**s, "execution": k + 2})
+            reqs.append((run_line(sk), obs_line(obs_k), {**s, "execution": k + 2}))
         if idx < 2:
             ctx.sample({"run_scenario": {"cmds": [{k: c[k] for k in ("name", "code")} for c in s["cmds"]], "ret": s["ret"]},
                         "observed": {k: obs[k] for k in ("exit", "trace")}, "joboutput_exitcode": (obs["out"] or {}).get("exitcode")})
@@ -1061,7 +1110,8 @@ def run(ctx):
                 "scripted writes/copies/removals/environment dumps (also into sub-directories, equal base names in different directories), "
                 "return_files = subset of created, input, capture and missing paths in several spellings (`sub/r.bin`, `./x`, `a//b`) "
                 "names / empty / None, environment overrides in job and runner, pre-populated scratch directory, every path argument "
-                "(input file, -o, -s) absolute or relative, runner launched from the job's directory, a sub-directory or an unrelated one; non-trivial = more "
+                "(input file, -o, -s) absolute or relative, a third of the inputs executed two or three times into the same output directory while "
+                "the scripted programs behave differently each time (after success, after a failing command, after a missing file), runner launched from the job's directory, a sub-directory or an unrelated one; non-trivial = more "
                 "than one command or a requested file. Part 3: commands given as a bare program name, a relative or an absolute path, with the same "
                 "bare name present in two absolute directories, a relative directory and the private directory itself; the job's envars set PATH "
                 "(several orders, a relative first entry, empty entries, empty PATH, a single directory) or leave it alone while the runner's own PATH "
